@@ -161,8 +161,11 @@ MODULES = {
     "c17a": ["char", "signed_char", "unsigned_char", "short", "unsigned_short", "int", "unsigned_int", "long",
              "unsigned_long", "long_long", "unsigned_long_long", "Py_ssize_t", "size_t", "float", "double", "long_double",
              "float_complex", "double_complex"],
-    "c17b": ["S1", "S2", "S3", "S4", "S5", "S6", "S7", "S8", "S9"],
+    "c17b": ["S1", "S2", "S3", "S4", "S5", "S6", "S7", "S8"],
 }
+# S9 (a struct with an array-of-structs member) trips `assert False` in Buffer.get_type_information_cname
+# (CArrayType.struct_nesting_depth() ignores its element type): recorded finding, compile-only replay.
+EXCLUDED = {"S9": "c17b"}
 # (kernel suffix, declaration template, ndim, contiguity request) for the shape / contiguity kernels
 NDKERNELS = [
     ("m1c", "%s[::1]", 1, "C"),
@@ -175,6 +178,8 @@ NDKERNELS = [
     ("b2f", 'object[%s, ndim=2, mode="fortran"]', 2, "F"),
 ]
 ND_DTYPES = {"c17a": ["double", "short"], "c17b": ["S1"]}
+# `const T[:]` kernels only for these (every memoryview type costs seconds of C compile time)
+CONST_DTYPES = ("unsigned_char", "int", "double", "float_complex", "S1", "S2", "S4")
 
 EXPORTER = '''
 from cpython.buffer cimport (PyBUF_WRITABLE, PyBUF_FORMAT, PyBUF_STRIDES, PyBUF_C_CONTIGUOUS, PyBUF_F_CONTIGUOUS,
@@ -257,33 +262,46 @@ cdef class Exporter:
 '''
 
 
-def module_source(modname):
+def module_source(modname, only=None):
+    """Source + kernel list [(name, dtype id, ndim, contiguity request, kind)] of a test module.
+    only=(dtype id, kernel name): the self-contained one-kernel variant used in replay files."""
     D = decls()
-    ids = MODULES[modname]
+    ids = MODULES[modname] if only is None else [only[0]]
+    nd_ids = ND_DTYPES[modname] if only is None else ([only[0]] if only[1].split("_")[0] not in ("mv", "cmv", "lb") else [])
     out = ["# cython: language_level=3\n", EXPORTER]
     seen = set()
     for i in ids:
         if D[i].kind == "struct":
             cy_decl_struct(D[i], out, seen)
     kernels = []
+
+    def add(k, text, rec):
+        if only is None or only[1] == k:
+            out.append(text)
+            kernels.append(rec)
     for i in ids:
         cn = cy_name(D[i])
-        out.append("def mv_%s(obj):\n    cdef %s[:] m = obj\n    return [m[i] for i in range(m.shape[0])]\n" % (i, cn))
-        out.append("def cmv_%s(obj):\n    cdef const %s[:] m = obj\n    return [m[i] for i in range(m.shape[0])]\n" % (i, cn))
-        out.append("def lb_%s(object[%s, ndim=1] buf):\n    return [buf[i] for i in range(buf.shape[0])]\n" % (i, cn))
-        kernels += [("mv_" + i, i, 1, None, "mv"), ("cmv_" + i, i, 1, None, "cmv"), ("lb_" + i, i, 1, None, "lb")]
-    for i in ND_DTYPES[modname]:
+        add("mv_" + i, "def mv_%s(obj):\n    cdef %s[:] m = obj\n    return [m[i] for i in range(m.shape[0])]\n" % (i, cn),
+            ("mv_" + i, i, 1, None, "mv"))
+        if i in CONST_DTYPES:
+            add("cmv_" + i, "def cmv_%s(obj):\n    cdef const %s[:] m = obj\n    return [m[i] for i in range(m.shape[0])]\n" % (i, cn),
+                ("cmv_" + i, i, 1, None, "cmv"))
+        add("lb_" + i, "def lb_%s(object[%s, ndim=1] buf, Py_ssize_t n0):\n    return [buf[i] for i in range(n0)]\n" % (i, cn),
+            ("lb_" + i, i, 1, None, "lb"))
+    for i in nd_ids:
         cn = cy_name(D[i])
         for suffix, tmpl, nd, contig in NDKERNELS:
             k = "%s_%s" % (suffix, i)
             decl = tmpl % cn
             idx = ", ".join("i%d" % j for j in range(nd))
-            loops = "".join(" for i%d in range(m.shape[%d])" % (j, j) for j in range(nd))
             if suffix[0] == "m":
-                out.append("def %s(obj):\n    cdef %s m = obj\n    return [m[%s]%s]\n" % (k, decl, idx, loops))
+                loops = "".join(" for i%d in range(m.shape[%d])" % (j, j) for j in range(nd))
+                text = "def %s(obj):\n    cdef %s m = obj\n    return [m[%s]%s]\n" % (k, decl, idx, loops)
             else:
-                out.append("def %s(%s m):\n    return [m[%s]%s]\n" % (k, decl, idx, loops))
-            kernels.append((k, i, nd, contig, "mv" if suffix[0] == "m" else "lb"))
+                loops = "".join(" for i%d in range(n%d)" % (j, j) for j in range(nd))
+                sig = "".join(", Py_ssize_t n%d" % j for j in range(nd))
+                text = "def %s(%s m%s):\n    return [m[%s]%s]\n" % (k, decl, sig, idx, loops)
+            add(k, text, (k, i, nd, contig, "mv" if suffix[0] == "m" else "lb"))
     # layout read-back
     rows = []
     for i in ids:
@@ -454,10 +472,6 @@ def accept_spellings(t):
         else:
             out.append(("count1/" + ml, spell(t, mode, counts="always")))
             out.append(("whitespace/" + ml, " " + spell(t, mode) + " "))
-        if has_cx:
-            out.append(("complex-as-two-reals/" + ml, spell(t, mode, complex_as="pair")))
-            if is_struct:
-                out.append(("complex-as-two-reals+T{}/" + ml, spell(t, mode, complex_as="pair", wrap=True, names=True)))
     # standard-size spellings whose sizes differ from native: 4-byte int is '=l', 8-byte long is '=q'
     if t.kind == "prim" and t.code in ("i", "I"):
         out.append(("std-size-l", "=" + ("l" if t.code == "i" else "L")))
@@ -561,7 +575,8 @@ def reject_spellings(t, either_extra=None):
     out.append(("garbled:unbalanced-open", "T{" + good))
     out.append(("garbled:unknown-code", good + "y"))
     out.append(("garbled:unknown-code", "&" + good))
-    out.append(("garbled:huge-count", "99999999" + good.lstrip("^")))
+    if t.kind != "struct":
+        out.append(("garbled:huge-count", "99999999" + good.lstrip("^")))
     out.append(("garbled:Z-alone", good + "Z"))
     out.append(("garbled:Zi", "Zi"))
     out.append(("garbled:T-without-brace", "T" + good))
@@ -573,6 +588,18 @@ def reject_spellings(t, either_extra=None):
             seen.add(f)
             res.append((cl, f))
     return res
+
+
+def risky_reject_spellings(t):
+    """Reject-set members that crash the unchanged tree (recorded finding): run in their own runner case."""
+    out = []
+    if t.kind == "struct":
+        nat = expressible_native(t)
+        body = spell(t, "" if nat else "^", wrap=True)
+        prefix, body = (body[0], body[1:]) if body[0] in "^=<@" else ("", body)
+        out.append(("struct-count+1", prefix + "2" + body))
+        out.append(("garbled:huge-count", prefix + "99999999" + body))
+    return out
 
 
 def either_spellings(t):
@@ -597,6 +624,11 @@ def either_spellings(t):
     if any(tk == "array" for tk in [f.kind for _, f in getattr(t, "fields", [])]):
         out.append(("array-as-repeat", spell(t, "" if expressible_native(t) else "^", arrays="flat", counts=True)))
         out.append(("array-as-flat", spell(t, "" if expressible_native(t) else "^", arrays="flat")))
+    if any(c in ("Zf", "Zd") for _, c, _ in flatten(t)):
+        # a complex number spelled as two reals: same memory, different element kind -> debatable
+        m = "" if expressible_native(t) else "^"
+        out.append(("complex-as-two-reals", spell(t, m, complex_as="pair")))
+        out.append(("complex-as-two-reals", spell(t, "=", complex_as="pair")))
     if t.kind == "struct":
         good = spell(t, "" if expressible_native(t) else "^", wrap=True, names=True)
         if expressible_native(t):
